@@ -293,6 +293,32 @@ def rule_permexh(ctx):
             good = bool(scores) and all(score_ok(v) for v in scores)
         yield ob(R, f, "%s:mean-sir" % q, good, "each permutation is scored by mean(sir[perm, arange(nsrc)])")
         yield ob(R, f, "%s:argmax" % q, len(am) == 1 and bool(scores), "the chosen permutation maximises the mean SIR (np.argmax over the per-permutation scores)")
+        # orientation of the score matrices: entry [i, j] holds the criteria of estimate i decomposed against true
+        # source j (rows are searched over by the permutation, columns are the true sources) - a transposed store makes
+        # the returned permutation the inverse one for three or more sources
+        decomp = "separation._bss_decomp_mtifilt" if q.endswith("sources") else "separation._bss_decomp_mtifilt_images"
+        n_or = 0
+        for m in s.by_kind("mutate"):
+            if m.how != "setitem" or m.val is None or m.key is None:
+                continue
+            v0 = m.val.a[0] if m.val.op == "sub" else m.val
+            if not (v0.op == "call" and call_name(v0) == crit):
+                continue
+            D = [z for z in tm.walk(v0) if z.op == "call" and call_name(z) == decomp and len(z.a[1]) >= 3]
+            if not D:
+                continue
+            key = m.key
+            comps = [z for z in key.a if z.op != "slice"] if key.op == "tuple" else [key]
+            if len(comps) == 1:
+                comps = [comps[0], comps[0]]  # the diagonal: estimate j against true source j
+            if len(comps) != 2:
+                continue
+            n_or += 1
+            est_ix = {z.a[1] for d in D for z in tm.walk(d.a[1][1]) if z.op == "sub" and z.a[0].op in ("param", "ite", "call") and "estimated_sources" in tm.params_of(z.a[0]) and z.a[1].op in ("iter", "idx", "loopvar")}
+            true_ix = {d.a[1][2] for d in D}
+            good_o = est_ix == {comps[0]} and true_ix == {comps[1]}
+            yield ob(R, f, "%s:orientation@%d" % (q, n_or), good_o, "score entry [%s, %s] holds estimate %s against true source %s" % (tm.show(comps[0], 1), tm.show(comps[1], 1), "/".join(tm.show(z, 1) for z in est_ix) or "?", "/".join(tm.show(z, 1) for z in true_ix) or "?"), node=m.node)
+        need(n_or >= 2, R, "%s: stores of the decomposition criteria into the score matrices not found" % q)
         rets = [r for r in s.returns if r.term.op == "tuple"]
         perm_ret = [r for r in rets if any(cc.op == "param" and cc.a[0] == "compute_permutation" and p for cc, p in symeval.pc_conds(r.pc))]
         noperm_ret = [r for r in rets if any(cc.op == "param" and cc.a[0] == "compute_permutation" and not p for cc, p in symeval.pc_conds(r.pc))]
@@ -493,7 +519,7 @@ RULES = [
     ("C19.ARITY", 14, rule_arity),
     ("C19.NANFILL", 30, rule_nanfill),
     ("C19.FRAMECALL", 12, rule_framecall),
-    ("C19.PERMEXH", 8, rule_permexh),
+    ("C19.PERMEXH", 22, rule_permexh),
     ("C19.SILENT", 7, rule_silent),
     ("C19.CACHEKEY", 5, rule_cachekey),
 ]
